@@ -88,6 +88,20 @@ def grids(tier, seed):
                 g.append({c: rnd.choice(vals)[1] for c in cols if rnd.random() < 0.8})
             yield ('random/%s' % ver, g)
         yield ('norows/%s' % ver, grid_of([], ver))
+        # row dicts whose key order is not the column order; columns re-ordered after the rows went in; rows with a tag that is no column
+        g = grid_of(['n', 10.0, True], ver)
+        cols = list(g.column.keys())
+        g.append(dict((c, v) for c, v in reversed(list(zip(cols, ['s', 20.0, False])))))
+        g.append(dict([(cols[1], 30.0), (cols[0], 'w'), (cols[2], True)]))
+        yield ('roworder/%s' % ver, g)
+        g = grid_of(['a', 1.0, 'c'], ver)
+        g.column.reverse()
+        yield ('colreverse/%s' % ver, g)
+        g = grid_of(['a', 1.0, 'c'], ver)
+        cols = list(g.column.keys())
+        g.column.add_item(cols[2], {}, index=0)
+        g.append(dict([(cols[0], 'x'), (cols[1], 2.0), (cols[2], 'z')]))
+        yield ('colmoved/%s' % ver, g)
 
 
 def fixed_offset_history():
